@@ -957,3 +957,13 @@ pub fn panic_iff_zero_divisor<Z: ZNum>(c: &Ctx<Z>) -> Expect<Z> {
         Expect::NoPanic
     }
 }
+
+// =============================== C09 =====================================================
+/// same bit pattern read as the signed type of the same width
+pub fn reinterpret_signed<Z: ZNum>(c: &Ctx<Z>) -> Expect<Z> {
+    is(Obs::V(c.as_signed(0)))
+}
+/// same bit pattern read as the unsigned type of the same width
+pub fn reinterpret_unsigned<Z: ZNum>(c: &Ctx<Z>) -> Expect<Z> {
+    is(Obs::V(c.as_unsigned(0)))
+}
